@@ -126,6 +126,8 @@ impl Interpreter {
 
     // a stmt by definition returns nothing
     pub(super) fn stmt(&mut self, stmt: &Stmt) -> Result<(), RuntimeError> {
+        #[cfg(feature = "verif")]
+        crate::verif::tick()?;
         match stmt {
             Stmt::Expr(expr) => self.expr(expr.as_ref()).map(|_| ()),
             Stmt::If(if_stmt) => {
